@@ -22,6 +22,11 @@ Model
   or to the later operation by choice: "writer executed clear(), recorder runs update()/stop(), writer goes on
   with its file I/O" is a schedule.  Each operation's effect stays atomic.  An after-point consumes tape only
   when another thread is runnable.
+* Sleep sets (sleep_sets=True, used by `enumerate_schedules` clients): blocks are either one operation or the plain
+  code between two operations; an operation and a code block of different threads commute, so of the schedules
+  that differ only in the order of such pairs one representative is enumerated.  A run in which every candidate
+  is asleep is `pruned` (equivalent to a run enumerated earlier).  `plain_choices`/`normalised_tape()` give the
+  same path as a tape for a scheduler without sleep sets, which is what traces store.
 * Runnable: a thread whose announced operation cannot block (is_set/set/clear/start/is_alive/begin),
   a `wait` whose event is set, a `join` whose target has finished.
 * Choice: the runnable threads are listed with the current thread first, the others by thread id;
@@ -73,7 +78,7 @@ class Deadlock(BaseException):
         self.what = what
 
 
-NONBLOCKING = ("is_set", "set", "clear", "start", "is_alive", "begin", "yield", "cont")
+NONBLOCKING = ("is_set", "set", "clear", "start", "is_alive", "begin", "yield", "cont", "exit")
 
 
 class _T:
@@ -100,9 +105,19 @@ class _T:
 
 class Scheduler:
     def __init__(self, tape=(), idle_limit: int = 12, max_steps: int = 200000, eager_start: bool = True,
-                 after_points: bool = True):
+                 after_points: bool = True, sleep_sets: bool = False, max_after_switches: Optional[int] = None):
         self.eager_start = eager_start
         self.after_points = after_points
+        # bound on the number of preemptions taken at after-points in one schedule (None = unbounded); switches at
+        # before-points are never bounded.  Lets an enumeration stay finite and small: "all schedules with at most
+        # n after-preemptions".
+        self.max_after_switches = max_after_switches
+        self.after_switches = 0
+        # sleep sets (used by exhaustive enumeration only): the tape then indexes the *reduced* choice points
+        self.sleep_sets = sleep_sets
+        self.sleep: set = set()  # tids whose next block was already explored from an equivalent state
+        self.pruned = False  # this run is equivalent to one enumerated earlier (every candidate asleep)
+        self.plain_choices: List[Tuple[int, int]] = []  # the same path as a tape for sleep_sets=False
         self.tape = [int(x) for x in tape]
         self.pos = 0
         self.choices: List[Tuple[int, int]] = []  # (choice, number of alternatives) at every real choice
@@ -157,17 +172,42 @@ class Scheduler:
     def _order(self, cur: _T) -> List[_T]:
         return [cur] + [t for t in self.threads if t is not cur]
 
+    @staticmethod
+    def _is_code(t: _T) -> bool:
+        """Is the thread's next block plain code (it sits at an after-point) rather than a synchronisation op?"""
+        return t.pending is not None and t.pending[0] == "cont"
+
+    def _ran(self, t: _T, code: bool):
+        """Thread t executes its next block (plain code or an operation): threads whose sleeping block does not
+        commute with it wake up.  A code block and an operation of different threads always commute (operations
+        touch only event flags / thread liveness, plain code never does); two operations or two code blocks may not."""
+        if self.sleep:
+            self.sleep = {x for x in self.sleep if x != t.tid and self._is_code(self.threads[x]) != code}
+
     def _choose(self, cands: List[_T]) -> _T:
-        k = len(cands)
-        if k == 1:
-            return cands[0]
-        if self.pos < len(self.tape):
-            c = self.tape[self.pos] % k
-        else:
+        red = cands
+        if self.sleep_sets and not self.pruned:
+            red = [t for t in cands if t.tid not in self.sleep]
+            if not red:
+                self.pruned = True  # finish the run on default choices, no further branching
+                red = cands
+        k = len(red)
+        if k == 1 or self.pruned:
             c = 0
-        self.pos += 1
-        self.choices.append((c, k))
-        return cands[c]
+        else:
+            c = self.tape[self.pos] % k if self.pos < len(self.tape) else 0
+            self.pos += 1
+            self.choices.append((c, k))
+        pick = red[c]
+        if len(cands) > 1:
+            self.plain_choices.append((cands.index(pick), len(cands)))
+        code = self._is_code(pick)
+        self._ran(pick, code)
+        if self.sleep_sets and not self.pruned:
+            for t in red[:c]:  # alternatives enumerated before this one stay asleep while they commute
+                if self._is_code(t) != code:
+                    self.sleep.add(t.tid)
+        return pick
 
     def _pick(self, cur: _T) -> Optional[_T]:
         """Who runs next?  None = nobody can (self.failure is set)."""
@@ -276,23 +316,26 @@ class Scheduler:
 
     def _after(self):
         me = self.current
+        me.pending = ("cont", None, None)  # always runnable: it only has to continue with plain code
         others = [t for t in self.threads if t is not me and self._can_run(t)]
-        if not others:
-            return  # nobody to switch to: no choice, no tape
+        if not others or (self.max_after_switches is not None and self.after_switches >= self.max_after_switches):
+            if others:
+                self.plain_choices.append((0, 1 + len(others)))  # an unbounded scheduler has a choice here
+            self._ran(me, True)
+            me.pending = None
+            return  # nobody to switch to (or the preemption budget is spent): no choice, no tape
         self.steps += 1
         if self.steps > self.max_steps:
             self.failure = Deadlock("livelock", f"more than {self.max_steps} scheduling steps in one case")
-            me.pending = ("cont", None, None)
             self._failed(me)
         nxt = self._choose([me] + others)
-        if nxt is me:
-            return
-        me.pending = ("cont", None, None)  # always runnable: it only has to continue
-        nxt.last_run = self.steps
-        self.current = nxt
-        nxt.go.release()
-        self._park(me)
-        self._woken(me)
+        if nxt is not me:
+            self.after_switches += 1
+            nxt.last_run = self.steps
+            self.current = nxt
+            nxt.go.release()
+            self._park(me)
+            self._woken(me)
         me.pending = None
 
     def changed(self):
@@ -320,12 +363,15 @@ class Scheduler:
                 try:
                     st._target(*st._args, **st._kwargs)
                 except SchedAbort:
-                    pass
+                    raise
                 except BaseException as e:  # noqa: the writer died - the harness reports it
                     t.exc = e
                     tb = traceback.extract_tb(e.__traceback__)
                     t.where = tb[-1].name if tb else "?"
                     t.exc_tb = "".join(traceback.format_exception(e))
+                self.point("exit", st, None)  # thread exit is an operation of its own (join/is_alive see it)
+            except SchedAbort:
+                pass
             finally:
                 t.done = True
                 t.pending = None
@@ -345,6 +391,7 @@ class Scheduler:
             # the new thread runs at once up to its first synchronisation operation (no choice here)
             me = self.current
             me.pending = ("yield", None, None)
+            self._ran(t, False)
             self.current = t
             t.go.release()
             self._park(me)
@@ -383,7 +430,8 @@ class Scheduler:
         return [t for t in self.threads[1:] if t.exc is not None]
 
     def normalised_tape(self) -> List[int]:
-        out = [c for c, _k in self.choices]
+        """The path of this run as a tape for a scheduler without sleep sets (trailing zeros trimmed)."""
+        out = [c for c, _k in self.plain_choices]
         while out and out[-1] == 0:
             out.pop()
         return out
